@@ -48,6 +48,18 @@ Theorem ee_equivalence : forall simple : lineT N -> bool,
 Proof. exact ee_equivalence_lemma. Qed.
 Print Assumptions ee_equivalence.
 
+(* Stale fields.  geom.NewPoint stores the Coordinates struct as given, so the Z / M field of a
+   point whose coordinate type does not use it may hold anything (also NaN); no encoding shows it.
+   Under every option subset the comparison gives the answer it gives on the values with those
+   fields zeroed - equality is determined by the USED ordinates.  (ee_iff_norm above already says
+   so for the case without options: its normal form zeroes the unused fields and its NaN
+   hypothesis only concerns used ordinates.)  The accessor dump of the correspondence run shows
+   used ordinates only, so the model is evaluated on strip_points of the stored value. *)
+Theorem ee_ignores_unused_fields : forall (simple : lineT N -> bool) (tol : N) (io : bool) (g h : geom),
+  exact_equals simple tol io (strip_points N 0%N g) (strip_points N 0%N h) = exact_equals simple tol io g h.
+Proof. exact ee_ignores_unused_lemma. Qed.
+Print Assumptions ee_ignores_unused_fields.
+
 (* ---- 2. the member matching ------------------------------------------------------------- *)
 
 (* validPermutation (backtracking over the shrinking slice of unmatched members) answers true
@@ -258,3 +270,11 @@ Proof.
     [exact (proj1 (const_oracle_invariant feq_bits true)) | exact (proj2 (const_oracle_invariant feq_bits true))
     | vm_compute; reflexivity | vm_compute; reflexivity | vm_compute; reflexivity | vm_compute; reflexivity].
 Qed.
+
+(* a point with stale Z and M (7 and NaN) in an XY value equals the clean point, also inside a MultiPoint under IgnoreOrder *)
+Definition stale_pt : pointT N := MkPoint XY (Some (Build_vtx one two 4619567317775286272 go_nan)).
+Definition clean_pt : pointT N := MkPoint XY (Some (Build_vtx one two 0 0)).
+Example ex_stale : exact_equals (fun _ => true) 0 false (GPoint stale_pt) (GPoint clean_pt) = true
+                /\ exact_equals (fun _ => true) 0 true (GMPoint XY [MkPoint XY None; stale_pt]) (GMPoint XY [clean_pt; MkPoint XY None]) = true
+                /\ strip_points N 0 (GPoint stale_pt) = GPoint clean_pt.
+Proof. vm_compute. auto. Qed.
